@@ -31,8 +31,9 @@ def closure(sysm):
     """in_closure[t]: t is requested or a transitive dependency of a requested target."""
     n = sysm.n
     inc = [None] * n
+    dups = getattr(sysm.main, 'dup_syms', [])
     for t in reversed(range(n)):
-        inc[t] = z3.Or([sysm.root[t]] + [z3.And(inc[u], sysm.dep[u][t]) for u in range(t + 1, n)])
+        inc[t] = z3.Or([sysm.root[t]] + ([dups[t]] if dups else []) + [z3.And(inc[u], sysm.dep[u][t]) for u in range(t + 1, n)])
     return inc
 
 
@@ -64,18 +65,19 @@ def replayable(who, n, v):
 
 
 class Query:
-    def __init__(self, name, bad, assume=(), confirm=None, role_excl=None, desc=''):
-        self.name, self.bad, self.assume, self.confirm, self.desc = name, bad, list(assume), confirm, desc
+    def __init__(self, name, bad, assume=(), confirm=None, role=None, desc=''):
+        self.name, self.bad, self.assume, self.confirm, self.desc, self.role = name, bad, list(assume), confirm, desc, role
 
 
-def build_queries(prop, sysm, u, mon):
+def build_queries(prop, sysm, u, mon, tier='quick'):
     """Obligations (each expected unsat) for property `prop` on unrolling u."""
     n = sysm.n
     K = u.K
     S = u.states[-1]
     G = u.ghosts[-1]
     stut = len(u.alt_names)
-    final_quiet = u.choices[-1] == stut
+    incomplete = z3.Not(u.quiescent(K, ignore=('signal', 'notify')))     # an internal step is still enabled in the final state
+    final_quiet = z3.Not(incomplete)
     nosig = z3.Not(S['sig.sent'])
     nf = oracle_constraints(u, nofail)
     nohang = [z3.Not(z3.Bool('hang_%d' % i)) for i in range(n)]
@@ -84,15 +86,19 @@ def build_queries(prop, sysm, u, mon):
     qs = []
     sticky = z3.Or(S['panic'], S['badmsg'])
     if prop == 'C01':
-        qs.append(Query('no_start_before_dependencies_ready', G['bad_start'], confirm='bad_start',
-                        desc='a script/service process is spawned while a dependency has not succeeded / is not running'))
-        qs.append(Query('no_start_while_last_word_out_of_date', G['bad_word'], confirm='bad_start',
-                        desc='spawn while the last message received from a dependency (either kind) is not Ok'))
+        if not (sysm.watch and tier == 'quick'):
+            # (in watch mode this obligation takes minutes per case: thorough tier only; the watch clause proper is the next one)
+            qs.append(Query('no_start_before_dependencies_ready', G['bad_start'], confirm='bad_start',
+                            desc='a script/service process is spawned while a dependency has not succeeded / has not been started'))
+        qs.append(Query('no_decision_to_start_while_last_word_out_of_date', G['bad_decide'], confirm='bad_start',
+                        desc='an actor decides to start (creates its build future / spawns its service) while the last message received from a dependency is not Ok'))
+        qs.append(Query('no_spawn_while_last_word_out_of_date', z3.And(G['bad_word'], z3.Not(G['bad_decide'])), confirm='bad_start', role='stale_start',
+                        desc='the script is spawned (first poll of the build future) after an Invalidated arrived between the decision and that poll'))
         qs.append(Query('no_panic_or_misrouted_message', sticky, confirm='panic'))
     elif prop == 'C04':
         if not sysm.watch:
             base = nf + nohang + [nosig]
-            qs.append(Query('bound_sufficient', u.choices[-1] != stut, base, confirm=None, desc='completeness of K'))
+            qs.append(Query('bound_sufficient', incomplete, base, confirm=None, desc='completeness of K'))
             qs.append(Query('no_deadlock', z3.And(final_quiet, z3.Not(svc_root), z3.Not(z3.And(S['main.phase'] == 4, z3.Not(S['main.err'])))), base,
                             confirm='stuck', desc='quiescent state in which a successful one-shot run has not exited with Ok'))
             qs.append(Query('all_needed_targets_done', z3.And(final_quiet, z3.Not(svc_root), z3.Or([
@@ -110,10 +116,10 @@ def build_queries(prop, sysm, u, mon):
                                                                      for t in range(n) if sysm.kinds[t] != 'aggregate'] + [F]))
             qs.append(Query('exactly_once_on_success', exactly, base, confirm='missing'))
     elif prop == 'C07':
-        qs.append(Query('no_start_of_dependents_of_failed', G['start_after_fail'], [], confirm='start_after_fail'))
         if not sysm.watch:
+            qs.append(Query('no_start_of_dependents_of_failed', G['start_after_fail'], [], confirm='start_after_fail'))
             base = nohang + [nosig]
-            qs.append(Query('bound_sufficient', u.choices[-1] != stut, base))
+            qs.append(Query('bound_sufficient', incomplete, base))
             qs.append(Query('failure_fails_the_run', z3.And(final_quiet, G['any_failed'], z3.Not(z3.And(S['main.phase'] == 4, S['main.err']))), base, confirm='rc_not_error'))
             qs.append(Query('error_only_on_failure', z3.And(S['main.err'], z3.Not(G['any_failed'])), base, confirm='rc_error'))
         else:
@@ -131,14 +137,18 @@ def build_queries(prop, sysm, u, mon):
             tr = mon.trans(sysm)
             blocked = [z3.Or([z3.And(tr[t][d], hang[d], sysm.kinds[d] == 'build') for d in range(t)] + [F]) for t in range(n)]
             notstarted = [z3.And(inc[t], z3.Not(blocked[t]), G['nstart.%d' % t] == 0, G['nresult.%d' % t] == 0) for t in range(n) if sysm.kinds[t] != 'aggregate']
-            qs.append(Query('bound_sufficient', u.choices[-1] != stut, base))
+            qs.append(Query('bound_sufficient', incomplete, base))
             qs.append(Query('nothing_waits_for_a_non_dependency', z3.And(final_quiet, z3.Or(notstarted + [F])), base, confirm='notstarted'))
     elif prop == 'C10':
         # no process ever exits by itself: every exit path must still complete
         allhang = [z3.Bool('hang_%d' % i) for i in range(n)]
         base = allhang
         left = S['main.phase'] != 0 if sysm.watch else z3.BoolVal(True)
-        qs.append(Query('bound_sufficient', z3.And(u.choices[-1] != stut, S['sig.sent']), base))
+        D = 14 if n <= 2 else 20       # steps allowed for the shutdown itself
+        ms = u.alt_names.index(('main_signal',))
+        # the main task takes the signal within the first K-D steps (how long it sits in the channel before is scheduling)
+        early = z3.Or([u.choices[k] == ms for k in range(max(1, K - D))])
+        qs.append(Query('bound_sufficient', z3.And(incomplete, early), base))
         qs.append(Query('signal_always_leads_to_exit', z3.And(final_quiet, S['sig.sent'], z3.Not(S['main.phase'] == 4)), base, confirm='stuck'))
         qs.append(Query('no_process_left_behind', z3.And(S['main.phase'] == 4, z3.Or([S['proc.%d' % t] for t in range(n)])), base, confirm='leak'))
         if not sysm.watch:
@@ -157,6 +167,7 @@ def witness_query(sysm, u):
     cs += oracle_constraints(u, nofail) + oracle_constraints(u, replayable)
     cs += [z3.Not(z3.Bool('hang_%d' % i)) for i in range(n)]
     cs += [S['launched.%d' % t] for t in range(n)]
+    cs.append(u.quiescent(u.K, ignore=('signal', 'notify')))      # ends quiescent
     if not sysm.watch:
         cs.append(z3.Or(S['main.phase'] == 4, S['main.phase'] == 1))
     else:
@@ -268,7 +279,7 @@ def confirm_native(kind, case, tr):
 
 def run_case(arg):
     """Worker: one kinds-combination. Returns a dict of results."""
-    (prop, kinds, watch, K, qcap, seed, do_witness, timeout_s, repo) = arg
+    (prop, kinds, watch, K, qcap, seed, do_witness, timeout_s, repo, tier) = arg
     t_start = time.time()
     out = {'kinds': kinds, 'watch': watch, 'K': K, 'queries': [], 'witness': None, 'error': None, 'functions': [], 'paths': 0}
     try:
@@ -291,14 +302,31 @@ def run_case(arg):
         out['alternatives'] = len(u.alt_names)
         s = u.solver(timeout_ms=int(timeout_s * 1000))
         s.add(z3.Or(sysm.root))
-        for q in build_queries(prop, sysm, u, mon):
+        if watch:
+            s.add(z3.ULE(u.ghosts[-1]['nnotify'], 2))      # bound E: at most two file-change notifications per run
+        for q in build_queries(prop, sysm, u, mon, tier):
             t0 = time.time()
             s.push()
             for a in q.assume:
                 s.add(a)
             s.add(q.bad)
-            r = s.check()
-            res = {'name': q.name, 'verdict': str(r), 'solver_s': round(time.time() - t0, 2), 'desc': q.desc, 'confirm': q.confirm}
+            # case split on the dependency matrix (schedule, roots and faults stay symbolic inside each case)
+            depsyms = [sysm.dep[i][j] for i in range(sysm.n) for j in range(i)]
+            r = z3.unsat
+            nsub = 0
+            for bits in itertools.product([False, True], repeat=len(depsyms)):
+                assumps = [d if b else z3.Not(d) for d, b in zip(depsyms, bits)]
+                nsub += 1
+                rr = s.check(*assumps)
+                if rr == z3.sat:
+                    r = z3.sat
+                    for a in assumps:
+                        s.add(a)
+                    break
+                if rr != z3.unsat:
+                    r = rr
+            res = {'name': q.name, 'verdict': str(r), 'solver_s': round(time.time() - t0, 2), 'desc': q.desc, 'confirm': q.confirm, 'role': q.role,
+                   'graph_cases': nsub}
             if r == z3.sat:
                 # prefer a counterexample the native replay can follow exactly
                 s.push()
